@@ -110,13 +110,14 @@ void run_expansion(vh::Case& c, const std::string& optname) {
     ST st; insert_graph(st, g); st.expansion(max_dim);
     Cx got = dump(st);
     c.count("cmp.expansion");
-    if (got != want) { c.violation("expansion.clique_complex", gsig + cls(got, want, g, max_dim), "insert_graph+expansion differs from the clique complex:" + diff(got, want)); return; }
+    // (each route builds its own tree: the recorded max_dim = 0 deviation of one route must not hide the next routes)
+    if (got != want) { c.violation("expansion.clique_complex", gsig + cls(got, want, g, max_dim), "insert_graph+expansion differs from the clique complex:" + diff(got, want)); if (!(max_dim == 0 && only_graph_edges_kept(got, want, g))) return; }
   }
   {  // route 2: blocker-driven expansion with an oracle that never blocks
     ST st; insert_graph(st, g); st.expansion_with_blockers(max_dim, [](typename ST::Simplex_handle) { return false; });
     Cx got = dump(st);
     c.count("cmp.expansion_never_blocking");
-    if (got != want) { c.violation("blockers.never_blocking", gsig + cls(got, want, g, max_dim), "expansion_with_blockers(never) differs from the clique complex:" + diff(got, want)); return; }
+    if (got != want) { c.violation("blockers.never_blocking", gsig + cls(got, want, g, max_dim), "expansion_with_blockers(never) differs from the clique complex:" + diff(got, want)); if (!(max_dim == 0 && only_graph_edges_kept(got, want, g))) return; }
   }
   {  // route 5: deterministic blocker predicate
     Blocker bl{(int)r.below(4), g.label[r.below(g.n())], 2 + (unsigned)r.below(3)};
